@@ -922,6 +922,13 @@ class IntrinsicCall(Call):
             # value) and we haven't explicitly requested them, ignore the
             # inquired variables, which are always the first argument.
             arguments = self.arguments[1:]
+            # The value of the inquired argument is not accessed but its
+            # subscripts (e.g. the bounds of an array section) are evaluated.
+            if self.arguments and isinstance(self.arguments[0], Reference):
+                _, indices_list = self.arguments[0].get_signature_and_indices()
+                for indices in indices_list:
+                    for idx in indices:
+                        idx.reference_accesses(var_accesses)
         else:
             arguments = self.arguments
         # An intrinsic *function* never modifies its arguments. An intrinsic
